@@ -240,3 +240,85 @@ func c01SymMerge(L1, L2 int) {
 
 func H_c01_symmerge_q() { c01SymMerge(5, 5) }
 func H_c01_symmerge_t() { c01SymMerge(9, 9) }
+
+// c01CycleTypes: every cycle type (partition of n into parts >= 3) as a disjoint union of
+// cycles on n vertices, and its complement, relabelled by fixed label-mixing maps
+// (identity, reversal, x -> a*x+1 mod n for the first (up to four) multipliers coprime to n); each of these
+// labelled graphs must have the same canonical graph as its images under every adjacent
+// transposition.  Unions of three or more cycles are where the search finds a better leaf
+// after automorphisms have been recorded.
+func c01CycleTypes(lo, hi int) {
+	n := lo + rt.Choice("n", hi-lo+1)
+	var types [][]int
+	var gen func(rem, min int, cur []int)
+	gen = func(rem, min int, cur []int) {
+		if rem == 0 {
+			types = append(types, append([]int{}, cur...))
+			return
+		}
+		for p := min; p <= rem; p++ {
+			if rem-p == 0 || rem-p >= p {
+				gen(rem-p, p, append(cur, p))
+			}
+		}
+	}
+	gen(n, 3, nil)
+	t := types[rt.Choice("type", len(types))]
+	base := make([][]bool, n)
+	for i := range base {
+		base[i] = make([]bool, n)
+	}
+	off := 0
+	for _, l := range t {
+		for i := 0; i < l; i++ {
+			a, b := off+i, off+(i+1)%l
+			base[a][b], base[b][a] = true, true
+		}
+		off += l
+	}
+	var mults []int
+	for a := 2; a < n && len(mults) < 4; a++ {
+		g := a
+		for m := n; m != 0; {
+			g, m = m, g%m
+		}
+		if g == 1 {
+			mults = append(mults, a)
+		}
+	}
+	sigma := make([]int, n)
+	switch k := rt.Choice("sigma", 2+len(mults)); k {
+	case 0:
+		for x := range sigma {
+			sigma[x] = x
+		}
+	case 1:
+		for x := range sigma {
+			sigma[x] = n - 1 - x
+		}
+	default:
+		a := mults[k-2]
+		for x := range sigma {
+			sigma[x] = (a*x + 1) % n
+		}
+	}
+	adj := vgRelabel(base, sigma)
+	if rt.Choice("complement", 2) == 1 {
+		for i := range adj {
+			for j := range adj {
+				if i != j {
+					adj[i][j] = !adj[i][j]
+				}
+			}
+		}
+	}
+	var taus [][]int
+	for a := 0; a+1 < n; a++ {
+		taus = append(taus, c01Transposition(n, a))
+	}
+	c01Invariant(adj, taus)
+	rt.Reach("end")
+}
+
+func H_c01_cycletypes_q() { c01CycleTypes(11, 12) }
+func H_c01_cycletypes_t() { c01CycleTypes(13, 15) }
